@@ -104,9 +104,12 @@ pub fn read_facts_and_rules(file_name: &str) -> Result<Vec<String>, String> {
         Ok(lines) => {
 
             let mut line_number = 1;
+            // Parentheses, brackets and quotes can stay open from
+            // one line to the next.
+            let mut nesting = Nesting{ round: 0, square: 0, in_quotes: false };
             for line in lines {
                 if let Ok(line) = line {
-                    let line = strip_comments(&line);
+                    let line = strip_comments_in(&line, &mut nesting);
                     if line.len() > 0 {
                         match check_last_char(&line, line_number) {
                             Some(msg) => { return Err(msg); },
@@ -173,27 +176,33 @@ where P: AsRef<Path>, {
 /// # Return
 /// * `line without comments`
 fn strip_comments(line: &str) -> String {
+    let mut nesting = Nesting{ round: 0, square: 0, in_quotes: false };
+    return strip_comments_in(line, &mut nesting);
+}  // strip_comments
+
+// Depth of parentheses and brackets, and whether a double quote
+// is open, at the end of the lines read so far.
+struct Nesting { round: i32, square: i32, in_quotes: bool }
+
+// Does the work of strip_comments(). A list or a complex term can
+// continue on the next line: `nesting` carries the depths from one
+// line to the next, so that # % // inside it do not start a comment.
+fn strip_comments_in(line: &str, nesting: &mut Nesting) -> String {
 
     let mut previous = 'x';
-    let mut round_depth  = 0;
-    let mut square_depth = 0;
 
     let mut index = 0;
     let mut has_comment = false;
 
-    // Between double quotes, parentheses, brackets and comment
-    // characters are ordinary characters.
-    let mut in_quotes = false;
-
     let chrs = str_to_chars!(line);
     for (i, ch) in chrs.iter().enumerate() {
-        if *ch == '"' { in_quotes = !in_quotes; }
-        else if in_quotes { }
-        else if *ch == '(' { round_depth += 1; }
-        else if *ch == '[' { square_depth += 1; }
-        else if *ch == ')' { round_depth -= 1; }
-        else if *ch == ']' { square_depth -= 1; }
-        else if round_depth == 0 && square_depth == 0 {
+        if *ch == '"' { nesting.in_quotes = !nesting.in_quotes; }
+        else if nesting.in_quotes { }
+        else if *ch == '(' { nesting.round += 1; }
+        else if *ch == '[' { nesting.square += 1; }
+        else if *ch == ')' { nesting.round -= 1; }
+        else if *ch == ']' { nesting.square -= 1; }
+        else if nesting.round == 0 && nesting.square == 0 {
             if *ch == '#' || *ch == '%' {
                 index = i;
                 has_comment = true;
@@ -214,7 +223,7 @@ fn strip_comments(line: &str) -> String {
         return chars_to_string!(chrs).trim().to_string();
     }
 
-}  // strip_comments
+}  // strip_comments_in
 
 /// Divides a text string into a list of facts and rules.
 ///
